@@ -191,6 +191,10 @@ def run(prog: Program, col: Collector, tier: str, refs: Optional[Refs] = None, c
     col.rule("R04.20", "integrating against a Delta substitutes the points of the integrated names only", floor=1)
     _delta_integrate(prog, col, refs, cat)
 
+    # ---------------------------------------------------------------- R04.21
+    col.rule("R04.21", "a term is declared affine in an input only after its op has been tested (affine substitution into Gaussians relies on it)", floor=4)
+    _affine_rules_test_op(prog, col, refs, cat)
+
     # ---------------------------------------------------------------- R04.3
     col.rule("R04.3", "Subs declares f's unsubstituted inputs plus the inputs of the substituted values", floor=3)
     si = require_func(prog, "funsor.terms::Subs.__init__")
@@ -1219,3 +1223,42 @@ def _delta_integrate(prog: Program, col: Collector, refs: Refs, cat: Catalogue):
                       "integrated disappears from the result's inputs", f.loc(cp))
     if n == 0:
         raise AnalysisError("no Integrate(Delta, ...) rule that builds substitution pairs from delta.terms found")
+
+
+# ---------------------------------------------------------------------- R04.21
+def _affine_rules_test_op(prog: Program, col: Collector, refs: Refs, cat: Catalogue):
+    """Gaussian.eager_subs substitutes a value eagerly (as a change of variables) when affine_inputs says the value is affine.  Every
+    rule of affine_inputs for a term class that carries an op must look at that op: neg / sum / add / sub / mul by a constant keep
+    affinity, max / mul-reduction / exp do not.  A rule that answers from the operand alone declares max_i x[i] affine in x."""
+    n = 0
+    for r in cat.registrations:
+        f = r.target
+        if r.registry != "funsor.affine.affine_inputs" or f is None or not r.pattern or not f.positional:
+            continue
+        p0 = r.pattern[0]
+        pinned = isinstance(p0, ast.Subscript)          # Finitary[ops.EinsumOp, tuple]: the pattern fixes the op
+        head = refs.resolve(p0.value if pinned else p0) if isinstance(p0.value if pinned else p0, (ast.Name, ast.Attribute)) else None
+        tc = cat.term_classes.get(head)
+        if tc is None:
+            continue
+        op_fields = [x for x in tc.fields if x in ("op", "red_op", "bin_op", "sum_op", "prod_op")]
+        if not op_fields:
+            continue
+        n += 1
+        fn = f.positional[0]
+        construct = f"{f.fq}::{tc.name}"
+        if pinned:
+            col.ok(construct, "the registration pattern fixes the op", f.loc(), nontrivial=False)
+            continue
+        tested = []
+        for x in ast.walk(f.node):
+            if isinstance(x, (ast.Compare, ast.Call)) and any(isinstance(y, ast.Attribute) and y.attr in op_fields and isinstance(y.value, ast.Name) and y.value.id == fn for y in ast.walk(x)):
+                par = f.module.parent.get(x)
+                if isinstance(x, ast.Compare) or (isinstance(x.func, ast.Name) and x.func.id == "isinstance"):
+                    tested.append(x)
+        # delegating to a flattened form built from the same ops (the Contraction rule) passes the question on
+        delegates = any(isinstance(c, ast.Call) and isinstance(c.func, ast.Attribute) and c.func.attr == "reduce" and any(
+            isinstance(y, ast.Attribute) and y.attr in op_fields for a in c.args for y in ast.walk(a)) for c in ast.walk(f.node))
+        col.check(bool(tested) or delegates, construct, "the rule tests the op (or rebuilds the term from its ops and asks again)",
+                  f"the affine_inputs rule for {tc.name} never looks at `{fn}.{op_fields[0]}`: it reports the operand's affine inputs for every op, so e.g. a max- or product-reduction of x "
+                  "is taken to be affine in x and Gaussian substitution treats it as a linear change of variables (wrong density)", f.loc())
